@@ -383,9 +383,9 @@ func goBuild(mod string) map[string]string {
 	if len(entries) == 0 {
 		return fails
 	}
-	gomod := "module gen.test\n\ngo 1.24.0\n\nrequire github.com/basecomplextech/spec v0.0.0\n\nreplace github.com/basecomplextech/spec => /repo\n"
+	gomod := "module gen.test\n\ngo 1.24.0\n\nrequire github.com/basecomplextech/spec v0.0.0\n\nreplace github.com/basecomplextech/spec => " + hx.RepoDir() + "\n"
 	os.WriteFile(filepath.Join(mod, "go.mod"), []byte(gomod), 0o644)
-	if sum, err := os.ReadFile("/repo/go.sum"); err == nil {
+	if sum, err := os.ReadFile(hx.RepoDir() + "/go.sum"); err == nil {
 		os.WriteFile(filepath.Join(mod, "go.sum"), sum, 0o644)
 	}
 	cmd := exec.Command("go", "build", "-gcflags=-e", "./...")
